@@ -16,6 +16,7 @@
 -/
 import G9.Locks
 import G9Proofs.Lemmas.LockSet
+import G9Proofs.Lemmas.OwnSet
 namespace G9.C19
 open G9 G9.Locks G9.LockSet
 
@@ -76,6 +77,66 @@ theorem guarded_accesses_are_ordered (guard : Nat → Nat) (h0 hend : Holders) (
 theorem unguarded_access_rejected (guard : Nat → Nat) (h : Holders) (t x : Nat) (w : Bool)
     (hn : h (guard x) ≠ some t) : step guard h ⟨t, .acc x w⟩ = none := by
   simp [step, hn]
+
+/-! ### objects handed over through channels (G9.OwnSet) -/
+
+/-- Under channel semantics and the ownership discipline (an object is accessed only by the
+    goroutine that made it or last received it), two accesses to the same object by different
+    goroutines are ordered: between them the first sends the object and, later, the second
+    receives it — for any number of goroutines, channels, objects and any length of execution.
+    This is the argument for the accesses the lock policy lists as exempt because the object is
+    private to one goroutine at a time (requests on their way to the writer goroutines, reply
+    buffers on their way back to the pool, log entries). -/
+theorem handed_over_accesses_are_ordered (s0 send : OwnSet.St) (hwf : OwnSet.WF s0) (pre mid post : List OwnSet.Ev)
+    (t u x : Nat) (w1 w2 : Bool) (htu : t ≠ u)
+    (hr : OwnSet.run s0 (pre ++ (⟨t, .acc x w1⟩ :: (mid ++ (⟨u, .acc x w2⟩ :: post)))) = some send) :
+    ∃ a b c ch1 ch2, mid = a ++ (⟨t, .send ch1 x⟩ :: (b ++ (⟨u, .recv ch2 x⟩ :: c))) := by
+  rw [OwnSet.run_append] at hr
+  cases h1e : OwnSet.run s0 pre with
+  | none => rw [h1e] at hr; cases hr
+  | some s1 =>
+    rw [h1e] at hr
+    simp only [Option.bind_some, OwnSet.run] at hr
+    have hwf1 := OwnSet.wf_run pre s0 s1 hwf h1e
+    cases hs1 : OwnSet.step s1 ⟨t, .acc x w1⟩ with
+    | none => rw [hs1] at hr; cases hr
+    | some s1' =>
+      rw [hs1] at hr
+      simp only [Option.bind_some] at hr
+      simp only [OwnSet.step] at hs1
+      split at hs1
+      · rename_i ho1
+        cases hs1
+        rw [OwnSet.run_append] at hr
+        cases h2e : OwnSet.run s1 mid with
+        | none => rw [h2e] at hr; cases hr
+        | some s2 =>
+          rw [h2e] at hr
+          simp only [Option.bind_some, OwnSet.run] at hr
+          cases hs2 : OwnSet.step s2 ⟨u, .acc x w2⟩ with
+          | none => rw [hs2] at hr; cases hr
+          | some s2' =>
+            simp only [OwnSet.step] at hs2
+            split at hs2
+            · rename_i ho2
+              have hne : s2.owner x ≠ some t := by
+                rw [ho2]; intro h; cases h; exact htu rfl
+              obtain ⟨a, b', ch1, sm, he, _, hmn, _, hrb⟩ :=
+                OwnSet.given_up_by_owner x t mid s1 s2 hwf1 h2e ho1 hne
+              have hmu : sm.owner x ≠ some u := by rw [hmn]; intro h; cases h
+              obtain ⟨b, c, ch2, hb⟩ := OwnSet.taken_by_owner x u b' sm s2 hrb hmu ho2
+              exact ⟨a, b, c, ch1, ch2, by rw [he, hb]⟩
+            · cases hs2
+      · cases hs1
+
+/-- an access by anybody but the owner is not an execution of the model -/
+theorem foreign_access_rejected (s : OwnSet.St) (t x : Nat) (w : Bool) (hn : s.owner x ≠ some t) :
+    OwnSet.step s ⟨t, .acc x w⟩ = none := by
+  simp [OwnSet.step, hn]
+
+example : (OwnSet.run { owner := fun k => if k = 7 then some 1 else none }
+    [⟨1, .acc 7 true⟩, ⟨1, .send 0 7⟩, ⟨2, .recv 0 7⟩, ⟨2, .acc 7 false⟩, ⟨2, .send 1 7⟩, ⟨1, .recv 1 7⟩, ⟨1, .acc 7 true⟩]).isSome = true := by
+  decide
 
 /-! ### non-vacuity: two threads hand a guarded location over -/
 example : (run (fun _ => 0) (fun _ => none)
